@@ -11,7 +11,7 @@ src = req + "\nSet Printing Width 100000.\nSet Printing Depth 100000.\n"
 for pr in pairs:
     if pr[1].endswith("!"):
         pr[1] = pr[1][:-1]
-        src += 'Set Printing Implicit.\nCheck %s.\nUnset Printing Implicit.\n' % pr[1]
+        src += 'Set Printing Implicit.\nUnset Printing Records.\nCheck %s.\nUnset Printing Implicit.\nSet Printing Records.\n' % pr[1]
     else:
         src += 'Check %s.\n' % pr[1]
 tmp = "/tmp/mkprops_%s.v" % prop
